@@ -477,6 +477,22 @@ fn random_case(ch: &mut Chooser) -> Report {
     let ops: Vec<Opnd> = (0..arity).map(|_| random_opnd(ch)).collect();
     with_ns(|ns, g| {
         let refs: Vec<&Opnd> = if from_grid { picks.iter().map(|k| &g[(*k as usize * g.len()) >> 16]).collect() } else { ops.iter().collect() };
+        if arity >= 4 {
+            // the reference arithmetic works in i128: folds whose exact intermediates may not fit are not judged
+            let bits: u32 = refs
+                .iter()
+                .map(|o| match o.snum {
+                    crate::sut::SNum::Int(n) => 128 - (n as i128).unsigned_abs().leading_zeros(),
+                    crate::sut::SNum::Rat(a, b) => 256 - (a as i128).unsigned_abs().leading_zeros() - (b as i128).unsigned_abs().leading_zeros(),
+                    crate::sut::SNum::Real(_) => 0,
+                })
+                .sum();
+            if bits > 110 {
+                let mut rep = Report::new(format!("({} {})", op.name(), refs.iter().map(|o| o.text.as_str()).collect::<Vec<_>>().join(" ")));
+                rep.skipped = Some("reference-arithmetic-range".into());
+                return rep;
+            }
+        }
         let mut rep = judge(ns, op, &refs);
         rep.label(format!("operands:{}", arity));
         rep
